@@ -74,6 +74,10 @@ def run(rep, prog, tier):
     r3(rep, prog)
     r4(rep, prog)
     r5(rep, prog)
+    rep.rule("C03-R6", "a docset answers for the document it is on (shared with C13-R4): when a DocSet type's advance and seek both reset a field of self (a cache of the current document's data, e.g. the positions of a phrase term), every other moving method it overrides (seek_danger, fill_buffer, fill_bitset_block) resets it too — a forwarder that moves the inner docset and keeps the cache makes a conjunction match documents with the words in the wrong place and drop matching ones")
+    from ..report import Retag
+    from .c13 import sibling_resets
+    sibling_resets(Retag(rep, "C03-R6"), prog, "C03-R6")
 
 
 PHRASE_SCRATCH = {
